@@ -204,6 +204,16 @@ func init() {
 				}
 				r.Extra["L_completed"] = L
 			}
+			// table dimension: every ordered triple of features over a ten-location menu x every rotation in [-L,L]
+			if complete {
+				L, tables := multiTables()
+				done := r.ParallelFor(len(tables)*(2*L+1), func(idx int) {
+					t, n := tables[idx/(2*L+1)], idx%(2*L+1)-L
+					eval(c04Case{L: L, Locs: t, Ns: []int{n}}, n%L != 0)
+				})
+				complete = complete && done
+				r.Extra["three_feature_tables"] = len(tables)
+			}
 			// part-count dimension: structured locations of 6..12 (thorough 20) parts x every single rotation in [-L,L] and pairs (a, -a), (a, 1)
 			{
 				maxParts := 12
